@@ -4,7 +4,8 @@
 From Coq Require Import ZArith List Bool Reals Lia Lra.
 From FT.lib Require Import Num Arr ArrLemmas Lower NumArr.
 From FT.gen Require Import Common Interp2d Interp3d Vinterp2d Vinterp3d FteikCommon Fteik2d Fteik3d Ray2d Ray3d.
-From FT.proofs Require Import Sweep2dProofs OperatorsR.
+From FT.model Require Import Api.
+From FT.proofs Require Import Sweep2dProofs OperatorsR ApiProofs.
 From FT.proofs Require Operators3R.
 Import ListNotations.
 Open Scope R_scope.
@@ -100,6 +101,20 @@ Theorem C05_t_ana_3d_scale_length :
        0 <= c -> t_ana i j k (c * dz) (c * dx) (c * dy) zsa xsa ysa v = c * t_ana i j k dz dx dy zsa xsa ysa v.
 Proof. exact @Operators3R.t_ana_scale_length. Qed.
 
+(* API layer (hand model coq/model/Api.v): dividing every velocity by c multiplies the slowness model handed to the kernel by c *)
+Theorem C05_slowness_handed_to_kernel_scales :
+  forall (c : R) (grid : list R),
+       c <> 0 ->
+       Forall (fun v : R => v <> 0) grid ->
+       slowness_of (map (fun v : R => v / c) grid) = map (Rmult c) (slowness_of grid).
+Proof. exact @ApiProofs.slowness_of_scale. Qed.
+
+(* API layer: the default ray budget int(2*diagonal/step) is unchanged when all lengths are rescaled *)
+Theorem C05_ray_default_budget_unit_invariant :
+  forall (c : R) (sh : list Z) (gs : list R) (step : R) (ms : option Z),
+       0 < c -> step <> 0 -> ray_max_step sh (map (Rmult c) gs) (c * step) ms = ray_max_step sh gs step ms.
+Proof. exact @ApiProofs.ray_max_step_unit_invariant. Qed.
+
 Print Assumptions C05_t_ana_scale_slowness.
 Print Assumptions C05_t_ana_scale_length.
 Print Assumptions C05_t_anad_scale_slowness.
@@ -110,3 +125,5 @@ Print Assumptions C05_sweep_scale_slowness.
 Print Assumptions C05_sweep_scale_length.
 Print Assumptions C05_t_ana_3d_scale_slowness.
 Print Assumptions C05_t_ana_3d_scale_length.
+Print Assumptions C05_slowness_handed_to_kernel_scales.
+Print Assumptions C05_ray_default_budget_unit_invariant.
